@@ -38,6 +38,8 @@ class Explorer(object):
         self.timeout_ms = timeout_ms
         self.cap = cap
         self.check_last = False
+        self.decided = {}
+        self._keep = []
 
     def assume(self, e):
         self.assumes.append(e)
@@ -62,6 +64,12 @@ class Explorer(object):
             return True
         if z3.is_false(cond):
             return False
+        # a condition already decided on this path (or its negation) is not a new fork
+        cid = cond.get_id()
+        if cid in self.decided:
+            return self.decided[cid]
+        if z3.is_not(cond) and cond.arg(0).get_id() in self.decided:
+            return not self.decided[cond.arg(0).get_id()]
         if self.pos < len(self.prefix):
             b = self.prefix[self.pos]
             if self.pos == len(self.prefix) - 1 and self.check_last:
@@ -79,6 +87,8 @@ class Explorer(object):
             self.prefix.append(b)
         self.pos += 1
         self.pc.append(cond if b else z3.Not(cond))
+        self.decided[cid] = b
+        self._keep.append(cond)
         return b
 
     def run_all(self, fn):
@@ -89,6 +99,8 @@ class Explorer(object):
             self.pos = 0
             self.pc = []
             self.assumes = []
+            self.decided = {}
+            self._keep = []
             state.reset()
             state.S.explorer = self
             try:
